@@ -5,7 +5,7 @@ From stdpp Require Import gmap strings.
 From RecordUpdate Require Import RecordSet.
 Import RecordSetNotations.
 From EV Require Import Base.Str Model.Value Model.Keyspace Model.Reply Model.Prog Model.Dispatch Model.Script.
-From EV Require Import Model.Resp Model.Disk Model.Aof.
+From EV Require Import Model.Resp Model.Disk Model.Aof Model.AbsForm.
 Local Open Scope Z_scope.
 
 Record aw := AW {
@@ -87,7 +87,10 @@ Definition cmd_lines (w : aw) (s : state) (c : Z) (argv : list string) : aw * li
   let pre := aw_pre w in
   let before := f_all (a_log a) in
   let lg := logged argv r in
-  let a' := if lg then aof_write (aw_pol w) a d argv else a in
+  (* what [handleCommand] hands to [LogCommand]: the absolute form at the clock the handler has just seen
+     (fixes/fix-absolute-expiry.diff) *)
+  let largv := absolute_form (st_now s) argv in
+  let a' := if lg then aof_write (aw_pol w) a d largv else a in
   let marker := if d =? a_cur a then [] else select_marker d in
   let imgs :=
     if negb (aw_images w) || is_err r then []
@@ -95,7 +98,7 @@ Definition cmd_lines (w : aw) (s : state) (c : Z) (argv : list string) : aw * li
       [img_line w "cmd.after_handler" pre before] ++
       (if lg then
          (if d =? a_cur a then [] else [img_line w "log.write.after_select" pre (before ++ marker)]) ++
-         [img_line w "log.write.after_cmd" pre (before ++ marker ++ encode_cmd argv)] ++
+         [img_line w "log.write.after_cmd" pre (before ++ marker ++ encode_cmd largv)] ++
          (match aw_pol w with Always => [img_line w "log.write.after_sync" pre (f_all (a_log a'))] | _ => [] end)
        else []) ++
       [img_line w "cmd.after_log" pre (f_all (a_log a'))] in
